@@ -327,6 +327,12 @@ class Interp(Engine):
         if isinstance(a, (list, tuple)) or isinstance(b, (list, tuple)):
             if isinstance(op, ast.Add) and type(a) is type(b):
                 return a + b
+            if isinstance(op, ast.Mult) and self.hooks.get('list_repeat'):
+                # [v] * n with a symbolic count: an allocation site; the contract decides what it means
+                seq, n = (a, b) if isinstance(a, (list, tuple)) else (b, a)
+                r = self.hooks['list_repeat'](self, seq, n)
+                if r is not NotImplemented:
+                    return r
             raise OutOfSubset('sequence binop with symbolic operand')
         x, y = self.as_int(a), self.as_int(b)
         if isinstance(op, ast.Add):
